@@ -36,6 +36,7 @@ Inductive instr :=
 | IPure         (* a statement that only computes local values *)
 | IPathLens     (* path_lengths = [len(obj._position) for obj in obj_list] (+ the derived reset lists) *)
 | IRecord       (* tiled.extend(zip(reset_obj, reset_obj_m0)) *)
+| IRecordOrig   (* tiled.extend((obj, obj._position, obj._orientation) for obj in reset_obj) *)
 | ITile         (* if max_path_len > 1: for obj, m0 in zip(reset_obj, reset_obj_m0): tile in place *)
 | IPoso         (* observer positions from the (tiled) sensor paths *)
 | IGroupKeys    (* grouping loop; raises MagpylibMissingInput when a field_func is None *)
@@ -51,7 +52,8 @@ Inductive instr :=
 
 Inductive wrapper :=
 | WPlain         (* the body is the public function (pre-7b53805) *)
-| WFinallyTrim.  (* tiled = []; try: return body(..., tiled, ...) finally: trim every (obj, m0) in tiled *)
+| WFinallyTrim   (* tiled = []; try: return body(..., tiled, ...) finally: trim every (obj, m0) in tiled *)
+| WFinallyRestore. (* ... finally: put back the saved (obj, position, orientation) of every entry of tiled *)
 
 Inductive srcin := SBare (i : nat) | SColl (kids : list nat) | SBad.
 Inductive obsent := OSens (i : nat) | OColl (kids : list nat) | OVec (shape : list nat) | OBadEnt.
@@ -59,7 +61,10 @@ Inductive obsin := OBad | OArr (shape : list nat) | OList (l : list obsent).
 Inductive sref := RUser (i : nat) | RTemp (shape : list nat).
 Inductive pixagg := PNone | PValid | PBadName | PCheckRaises | PAggRaises.
 
-Record loopcrash := mkCrash { lc_done : nat; lc_half : bool; lc_exn : exn }.
+(* a crash inside a loop over a SET of objects (iteration order is arbitrary): the list positions whose
+   iteration completed, optionally one position that got its position path assigned but not yet its
+   orientation path, and the exception *)
+Record loopcrash := mkCrash { lc_done : list nat; lc_half : option nat; lc_exn : exn }.
 Record sched := mkSched { s_anon : nat -> option exn; s_loop : nat -> option loopcrash }.
 
 Section Model.
@@ -107,16 +112,21 @@ Definition trim_obj (m0 : nat) (o : obj) : obj := trim_ori m0 (trim_pos m0 o).
 (* a loop `for obj, m0 in l: obj._position = ..; obj._orientation = ..` with an optional crash *)
 Definition loop_full (f : nat -> obj -> obj) (l : list (nat * nat)) (st : store) : store :=
   fold_left (fun s im => upd (fst im) (f (snd im)) s) l st.
+Definition select (ps : list nat) (l : list (nat * nat)) : list (nat * nat) :=
+  flat_map (fun j => match nth_error l j with Some x => [x] | None => [] end) ps.
 Definition loop_crash (f fhalf : nat -> obj -> obj) (l : list (nat * nat)) (c : loopcrash) (st : store) : store :=
-  let st1 := loop_full f (firstn (lc_done c) l) st in
-  if lc_half c then match nth_error l (lc_done c) with
-                    | Some im => upd (fst im) (fhalf (snd im)) st1
-                    | None => st1 end
-  else st1.
-(* the loop header is evaluated once more when the list is exhausted: done = length l is a crash point too *)
-Definition crashes (l : list (nat * nat)) (c : loopcrash) : bool := lc_done c <=? length l.
+  let st1 := loop_full f (select (lc_done c) l) st in
+  match lc_half c with
+  | Some j => match nth_error l j with
+              | Some im => upd (fst im) (fhalf (snd im)) st1
+              | None => st1 end
+  | None => st1
+  end.
 
 Definition trim_all (l : list (nat * nat)) (st : store) : store := loop_full trim_obj l st.
+Definition set_paths (pq : list V * list Q) (o : obj) : obj := mkObj (fst pq) (snd pq) (o_attr o).
+Definition restore_all (l : list (nat * (list V * list Q))) (st : store) : store :=
+  fold_left (fun s ipq => upd (fst ipq) (set_paths (snd ipq)) s) l st.
 
 (* ---- read-only helpers *)
 Definition plen (st : store) (i : nat) : nat :=
@@ -271,13 +281,15 @@ Definition exec_ro (c : call) (i : instr) (st : store) (M : nat) (e : env) (cnt 
   end.
 
 (* ---- the machine *)
-Record mstate := mkM { m_store : store; m_tiled : list (nat * nat); m_reset : list (nat * nat);
+Record mstate := mkM { m_store : store; m_tiled : list (nat * nat);
+                       m_saved : list (nat * (list V * list Q));
+                       m_reset : list (nat * nat);
                        m_M : nat; m_env : env; m_cnt : nat; m_trace : list tr_ent }.
 
 Inductive res := Cont (m : mstate) | Ret (v : option Val) (m : mstate) | Exc (x : exn) (m : mstate).
 
 Definition with_store (m : mstate) (st : store) : mstate :=
-  mkM st (m_tiled m) (m_reset m) (m_M m) (m_env m) (m_cnt m) (m_trace m).
+  mkM st (m_tiled m) (m_saved m) (m_reset m) (m_M m) (m_env m) (m_cnt m) (m_trace m).
 
 Definition exec (c : call) (sch : sched) (pc : nat) (i : instr) (m : mstate) : res :=
   match s_anon sch pc with
@@ -285,35 +297,36 @@ Definition exec (c : call) (sch : sched) (pc : nat) (i : instr) (m : mstate) : r
   | None =>
     match i with
     | IPathLens =>
-        Cont (mkM (m_store m) (m_tiled m)
+        Cont (mkM (m_store m) (m_tiled m) (m_saved m)
                   (reset_list (m_store m) (e_srcs (m_env m)) (e_sens (m_env m)))
                   (max_len (m_store m) (e_srcs (m_env m)) (e_sens (m_env m)))
                   (m_env m) (m_cnt m) (m_trace m))
     | IRecord =>
-        Cont (mkM (m_store m) (m_tiled m ++ m_reset m) (m_reset m) (m_M m) (m_env m) (m_cnt m) (m_trace m))
+        Cont (mkM (m_store m) (m_tiled m ++ m_reset m) (m_saved m) (m_reset m) (m_M m) (m_env m) (m_cnt m)
+                  (m_trace m))
+    | IRecordOrig =>
+        Cont (mkM (m_store m) (m_tiled m)
+                  (m_saved m ++ map (fun im => (fst im, paths_of (m_store m) (fst im))) (m_reset m))
+                  (m_reset m) (m_M m) (m_env m) (m_cnt m) (m_trace m))
     | ITile =>
         if 1 <? m_M m then
           let f := fun m0 => tile_obj (m_M m - m0) in
           let fh := fun m0 => tile_pos (m_M m - m0) in
           match s_loop sch pc with
-          | Some lc => if crashes (m_reset m) lc
-                       then Exc (lc_exn lc) (with_store m (loop_crash f fh (m_reset m) lc (m_store m)))
-                       else Cont (with_store m (loop_full f (m_reset m) (m_store m)))
+          | Some lc => Exc (lc_exn lc) (with_store m (loop_crash f fh (m_reset m) lc (m_store m)))
           | None => Cont (with_store m (loop_full f (m_reset m) (m_store m)))
           end
         else Cont m
     | ITrim =>
         match s_loop sch pc with
-        | Some lc => if crashes (m_reset m) lc
-                     then Exc (lc_exn lc) (with_store m (loop_crash trim_obj trim_pos (m_reset m) lc (m_store m)))
-                     else Cont (with_store m (loop_full trim_obj (m_reset m) (m_store m)))
+        | Some lc => Exc (lc_exn lc) (with_store m (loop_crash trim_obj trim_pos (m_reset m) lc (m_store m)))
         | None => Cont (with_store m (loop_full trim_obj (m_reset m) (m_store m)))
         end
     | _ =>
         match exec_ro c i (m_store m) (m_M m) (m_env m) (m_cnt m) (m_trace m) with
-        | RCont e cnt tr => Cont (mkM (m_store m) (m_tiled m) (m_reset m) (m_M m) e cnt tr)
-        | RRet v cnt tr => Ret v (mkM (m_store m) (m_tiled m) (m_reset m) (m_M m) (m_env m) cnt tr)
-        | RExc x cnt tr => Exc x (mkM (m_store m) (m_tiled m) (m_reset m) (m_M m) (m_env m) cnt tr)
+        | RCont e cnt tr => Cont (mkM (m_store m) (m_tiled m) (m_saved m) (m_reset m) (m_M m) e cnt tr)
+        | RRet v cnt tr => Ret v (mkM (m_store m) (m_tiled m) (m_saved m) (m_reset m) (m_M m) (m_env m) cnt tr)
+        | RExc x cnt tr => Exc x (mkM (m_store m) (m_tiled m) (m_saved m) (m_reset m) (m_M m) (m_env m) cnt tr)
         end
     end
   end.
@@ -334,27 +347,34 @@ Definition finalize (w : wrapper) (m : mstate) : store :=
   match w with
   | WPlain => m_store m
   | WFinallyTrim => trim_all (m_tiled m) (m_store m)
+  | WFinallyRestore => restore_all (m_saved m) (m_store m)
   end.
 
 Definition getBH_level2 (w : wrapper) (p : list instr) (c : call) (sch : sched) (cnt : nat) (st : store)
   : result :=
-  match run_body c sch 0 p (mkM st [] [] 0 env0 cnt []) with
+  match run_body c sch 0 p (mkM st [] [] [] 0 env0 cnt []) with
   | Cont m => mkRes (Returned None) (finalize w m) (m_cnt m) (m_trace m)
   | Ret v m => mkRes (Returned v) (finalize w m) (m_cnt m) (m_trace m)
   | Exc x m => mkRes (Raised x) (finalize w m) (m_cnt m) (m_trace m)
   end.
 
-(* static acceptance of a program: path lengths are read while nothing is tiled, and every tiling
-   loop runs only after its reset list has been recorded in `tiled` *)
-Fixpoint prog_ok (recorded dirty : bool) (p : list instr) : bool :=
+(* static acceptance of a program under a wrapper: path lengths are read while nothing is tiled, every
+   tiling loop runs only after its reset list has been recorded in `tiled` in the form the wrapper's
+   finally uses (lengths for the trimming finally; the original path objects, taken while nothing is
+   tiled, for the restoring finally) *)
+Definition is_trim (w : wrapper) : bool := match w with WFinallyTrim => true | _ => false end.
+Definition is_restore (w : wrapper) : bool := match w with WFinallyRestore => true | _ => false end.
+Fixpoint prog_ok (w : wrapper) (recorded dirty : bool) (p : list instr) : bool :=
   match p with
   | [] => true
-  | IPathLens :: r => negb dirty && prog_ok false dirty r
-  | IRecord :: r => prog_ok true dirty r
-  | ITile :: r => recorded && prog_ok recorded true r
-  | ITrim :: r => prog_ok recorded true r
-  | _ :: r => prog_ok recorded dirty r
+  | IPathLens :: r => negb dirty && prog_ok w false dirty r
+  | IRecord :: r => prog_ok w (is_trim w) dirty r
+  | IRecordOrig :: r => negb dirty && prog_ok w (is_restore w) dirty r
+  | ITile :: r => recorded && prog_ok w recorded true r
+  | ITrim :: r => prog_ok w recorded true r
+  | _ :: r => prog_ok w recorded dirty r
   end.
+Definition wrapper_ok (w : wrapper) (p : list instr) : bool := prog_ok w false false p.
 
 Definition wf_obj (o : obj) : Prop := length (o_ori o) = length (o_pos o).
 Definition wf_store (st : store) : Prop := Forall wf_obj st.
